@@ -192,8 +192,8 @@ func serveGate(carrier string, svc *countingServer, req *http.Request) *http.Res
 	return rec.Result()
 }
 
-func gateCase(c map[string]interface{}) map[string]interface{} {
-	out := map[string]interface{}{}
+func gateCase(c map[string]interface{}) (out map[string]interface{}) {
+	out = map[string]interface{}{}
 	for k, v := range c {
 		out[k] = v
 	}
